@@ -7,7 +7,7 @@ import langcheck
 
 MODEL_TARGETS = ['Run/SemShow.vo', 'Run/VmShow.vo']
 EXTRA_TARGETS = MODEL_TARGETS
-OPTS = {'p_routine': 0.12, 'kinds': False,
+OPTS = {'p_routine': 0.12, 'kinds': False, 'nested_defs': 3,
         'weights': {'repeat': 45, 'break': 10, 'print': 22, 'assign': 8, 'if': 10, 'set': 8, 'units': 4, 'reg': 4,
                     'power': 1, 'time': 1, 'get': 1, 'wait': 1, 'printf': 2, 'call': 4, 'return': 3}}
 
